@@ -140,7 +140,7 @@ PROPS['C16'] = {
 }
 PROPS['C08'] = {
     'level': 'exploration',
-    'vx': [{'unit': 'attrs'}, {'unit': 'integrity', 'functions': ['try_from', 'check_type_and_len', 'hmac']}, {'unit': 'writers'}],
+    'vx': [{'unit': 'attrs'}, {'unit': 'integrity', 'functions': ['try_from', 'check_type_and_len', 'hmac']}, {'unit': 'writers'}, {'unit': 'writers_lists'}],
     'kx': _ATTR_K,
     'bx': ['c08'],
     'rule': 'Kani complete harnesses for the ten fixed-size attribute types (symbolic type code, 0..=40 symbolic value bytes); BX for the nine variable-length types.',
@@ -156,7 +156,7 @@ PROPS['C08'] = {
 PROPS['C12'] = {
     'level': 'exploration',
     'trusted_extra': ['sub-slice write shims slice_copy_at / slice_fill_at / be_write_uN_at_slice (vx/shims/slices.rs; cross-checked by KX k_shim_slices), String::as_bytes/len = UTF-8 encoding (vx/shims/string.rs)'],
-    'vx': [{'unit': 'writers'}, {'unit': 'attrs', 'functions': ['to_raw', 'length', 'get_type', "RawAttribute<'a> :: new", 'padded']}, {'unit': 'builder', 'functions': ['write_into', 'into_owned', 'to_owned', 'lemma_layout_congruent', 'theorem_same_contents_same_bytes']}],
+    'vx': [{'unit': 'writers'}, {'unit': 'writers_lists'}, {'unit': 'attrs', 'functions': ['to_raw', 'length', 'get_type', "RawAttribute<'a> :: new", 'padded']}, {'unit': 'builder', 'functions': ['write_into', 'into_owned', 'to_owned', 'lemma_layout_congruent', 'theorem_same_contents_same_bytes']}],
     'kx': ['k_shim_slices', 'k_shim_write_u16', 'k_shim_u128', 'k03_build_small'] + ['k12_raw_attribute'] + [k for k in _ATTR_K if k not in ('k_check_len', 'k08_error_code_new', 'k08_unknown_attributes_small')],
     'bx': ['c12'],
     'rule': 'Kani harnesses: helper check_writers (in-place writer vs RFC layout vs raw conversion, 0xAA-filled oversize buffer, every shorter buffer) on every decodable value of the fixed-size types; BX for variable-length types and builders.',
@@ -250,7 +250,7 @@ PROPS['C20'] = {
 _BX_TRUST = ['BX reference implementations (CRC-32, MD5, SHA-1, SHA-256, HMAC, TLV decoder/encoder, abstract agent) written for this harness from the RFCs / property statements; self-tested against published vectors and python hashlib/zlib at setup']
 PROPS['C03'] = {
     'level': 'exploration',
-    'vx': [{'unit': 'layout'}, {'unit': 'writers', 'functions': ['write_into', 'write_into_unchecked', 'to_bytes', 'write_header']},
+    'vx': [{'unit': 'layout'}, {'unit': 'writers', 'functions': ['write_into', 'write_into_unchecked', 'to_bytes', 'write_header']}, {'unit': 'writers_lists', 'functions': ['write_into', 'write_into_unchecked', 'write_into_data', 'write_data_into_unchecked', 'to_raw', ':: write']},
            {'unit': 'builder', 'functions': ['write_into', 'into_owned', 'to_owned', 'add_fingerprint_unchecked', 'add_message_integrity_unchecked', 'integrity_bytes_from_message', 'theorem_sealed_fingerprint', 'theorem_sealed_sha1', 'theorem_sealed_sha256', 'lemma_last_tlv', 'lemma_layout_push', 'lemma_layout_split', 'lemma_write_step', 'lemma_write_room', ':: from', ':: new', 'theorem_builder_wellformed', 'theorem_unsealed_builder_parses', 'theorem_fingerprinted_builder_parses', 'theorem_guarded_builder_parses', 'theorem_guarded_builder_exposes_all', 'lemma_all_exposed', 'lemma_offsets_describe', 'lemma_all_offsets_len', 'lemma_layout_head', 'lemma_ordered_blist', 'lemma_ordered_push', 'lemma_ordered_ext', 'lemma_blayout_tail_ok', 'lemma_blist_push', 'lemma_unsealed_ok', 'lemma_flags_unsealed', 'lemma_layout_mod4']}],
     'kx': ['k03_build_small'],
     'bx': ['c03'],
